@@ -11,7 +11,7 @@ use serde::{Deserialize, Serialize};
 pub fn def() -> PropDef {
     PropDef {
         id: "C12",
-        rule: "generated: codec family x engine x configuration x received-set spec x index probes {0, count-1, count, count+1, 2^32, usize::MAX-1, usize::MAX, random} x 1..20 consecutive rounds on one encoder and one decoder without explicit reset (new data and a new received set each round). oracle: recovery(i) is Some of the configured length iff i < recovery_count, the iterator yields exactly recovery(0..r) in order and then None on 5 further calls; restored_original(i) is Some iff i < original_count and not given (never when all were given), the iterator yields exactly those pairs ascending, then None 5 times; restored bytes equal the encoded originals; every round after a dropped result accepts all adds and is right again. part iter_protocol: generated sequences of std Iterator operations (next, nth, skip, step_by, take, count, last, fold, size_hint) on both result iterators must agree with a model iterator over exactly the expected items. non-trivial: sparse received set with k >= 16, or a probe >= 2^32, or >= 3 rounds; distinct by full case",
+        rule: "generated: codec family x engine x configuration x received-set spec x index probes {0, count-1, count, count+1, 2^32, usize::MAX-1, usize::MAX, random} x 1..20 consecutive rounds on one encoder and one decoder without explicit reset (new data and a new received set each round). oracle: recovery(i) is Some of the configured length iff i < recovery_count, the iterator yields exactly recovery(0..r) in order and then None on 5 further calls; restored_original(i) is Some iff i < original_count and not given (never when all were given), the iterator yields exactly those pairs ascending, then None 5 times; restored bytes equal the encoded originals; every round after a dropped result accepts all adds and is right again. part iter_protocol: generated sequences of std Iterator operations (next, nth, skip, step_by, take, count, last, fold, size_hint) on both result iterators must agree with a model iterator over exactly the expected items; and each of 22 consuming methods (for_each, count, last, fold, collect, extend, max, min, partition, all, position, reduce, and by-value adaptors map / enumerate / skip / step_by / take / chain / fuse / peekable / filter / zip) called DIRECTLY on a new iterator of the same result after a prefix of those operations (a method the iterator type overrides itself only runs when it is not reached through by_ref()). non-trivial: sparse received set with k >= 16, or a probe >= 2^32, or >= 3 rounds; distinct by full case",
         assumptions: &[],
         parts,
     }
@@ -102,6 +102,18 @@ fn iter_strategy(_t: Tier) -> BoxedStrategy<IterCase> {
 
 /// applies the ops to `it` and to the model; every observable result must agree
 fn drive<T: PartialEq + std::fmt::Debug + Clone, I: Iterator<Item = T>, M: Iterator<Item = T>>(what: &str, ops: &[IterOp], it: &mut I, model: &mut M) -> CheckResult {
+    drive_ops(what, ops, it, model)?;
+    // and then None forever
+    for extra in 0..4 {
+        let (a, b) = (it.next(), model.next());
+        if a != b {
+            fail!("{what}: after the operations, next() #{extra} gives {a:?}, expected {b:?}");
+        }
+    }
+    Ok(())
+}
+
+fn drive_ops<T: PartialEq + std::fmt::Debug + Clone, I: Iterator<Item = T>, M: Iterator<Item = T>>(what: &str, ops: &[IterOp], it: &mut I, model: &mut M) -> CheckResult {
     fn eq<T: PartialEq + std::fmt::Debug>(what: &str, i: usize, op: &IterOp, a: T, b: T) -> CheckResult {
         if a != b {
             fail!("{what}: operation #{i} {op:?} gives {a:?}, an iterator over exactly the expected items gives {b:?}");
@@ -134,12 +146,135 @@ fn drive<T: PartialEq + std::fmt::Debug + Clone, I: Iterator<Item = T>, M: Itera
             IterOp::Fold => eq(what, i, op, it.by_ref().fold(0usize, |a, _| a + 1), model.by_ref().fold(0usize, |a, _| a + 1))?,
         }
     }
-    // and then None forever
-    for extra in 0..4 {
-        let (a, b) = (it.next(), model.next());
-        if a != b {
-            fail!("{what}: after the operations, next() #{extra} gives {a:?}, expected {b:?}");
+    Ok(())
+}
+
+pub const TERMINALS: usize = 22;
+
+/// a CONSUMING std method called directly on the (possibly partly consumed) iterator - not through `by_ref()`,
+/// whose `&mut I` forwards only next / nth / size_hint, so that a method the iterator type overrides itself
+/// (for_each, fold, count, last, ...) is what runs. Both sides are reduced to the list of items the method saw
+/// or produced.
+fn terminal<T: Ord + Clone + std::fmt::Debug, I: Iterator<Item = T>>(t: usize, it: I) -> (&'static str, Vec<T>, usize) {
+    let mut seen: Vec<T> = Vec::new();
+    let mut n = 0usize;
+    let name = match t {
+        0 => {
+            it.for_each(|x| seen.push(x));
+            "for_each"
         }
+        1 => {
+            n = it.count();
+            "count"
+        }
+        2 => {
+            seen.extend(it.last());
+            "last"
+        }
+        3 => {
+            seen = it.fold(Vec::new(), |mut a, x| {
+                a.push(x);
+                a
+            });
+            "fold"
+        }
+        4 => {
+            seen = it.collect();
+            "collect::<Vec>"
+        }
+        5 => {
+            let mut set = std::collections::BTreeSet::new();
+            set.extend(it);
+            seen = set.into_iter().collect();
+            "BTreeSet::extend"
+        }
+        6 => {
+            seen.extend(it.max());
+            "max"
+        }
+        7 => {
+            seen.extend(it.min());
+            "min"
+        }
+        8 => {
+            let (a, b): (Vec<T>, Vec<T>) = it.partition(|_| true);
+            n = b.len();
+            seen = a;
+            "partition"
+        }
+        9 => {
+            let mut it = it;
+            n = it.all(|x| {
+                seen.push(x);
+                true
+            }) as usize;
+            "all"
+        }
+        10 => {
+            let mut it = it;
+            n = it.position(|_| false).map_or(usize::MAX, |p| p);
+            "position"
+        }
+        11 => {
+            it.map(|x| x).for_each(|x| seen.push(x));
+            "map.for_each"
+        }
+        12 => {
+            seen = it.enumerate().map(|(i, x)| {
+                n += i;
+                x
+            }).collect();
+            "enumerate.collect"
+        }
+        13 => {
+            seen = it.skip(2).collect();
+            "skip(2).collect"
+        }
+        14 => {
+            seen = it.step_by(3).collect();
+            "step_by(3).collect"
+        }
+        15 => {
+            it.take(3).for_each(|x| seen.push(x));
+            "take(3).for_each"
+        }
+        16 => {
+            seen = it.chain(std::iter::empty()).collect();
+            "chain.collect"
+        }
+        17 => {
+            n = it.fuse().count();
+            "fuse.count"
+        }
+        18 => {
+            let mut p = it.peekable();
+            seen.extend(p.peek().cloned());
+            seen.extend(p);
+            "peekable"
+        }
+        19 => {
+            seen = it.filter(|_| true).collect();
+            "filter.collect"
+        }
+        20 => {
+            seen.extend(it.reduce(|a, b| a.max(b)));
+            "reduce"
+        }
+        _ => {
+            seen = it.zip(0..).map(|(x, _)| x).collect();
+            "zip.collect"
+        }
+    };
+    (name, seen, n)
+}
+
+/// a prefix of the ops (through by_ref), then one consuming method directly on the iterator
+fn drive_terminal<T: Ord + Clone + std::fmt::Debug, I: Iterator<Item = T>, M: Iterator<Item = T>>(what: &str, ops: &[IterOp], t: usize, mut it: I, mut model: M) -> CheckResult {
+    drive_ops(what, ops, &mut it, &mut model)?;
+    let (name, a, na) = terminal(t, it);
+    let (_, b, nb) = terminal(t, model);
+    if a != b || na != nb {
+        fail!("{what}: after {} operation(s) {ops:?}, {name} directly on the iterator sees/gives {} item(s) (n={na}), an iterator over exactly the remaining expected items {} item(s) (n={nb})", ops.len(), a.len(), b.len());
     }
     Ok(())
 }
@@ -158,6 +293,14 @@ fn check_iter(c: &IterCase, st: &mut Stats) -> CheckResult {
             let mut it = res.recovery_iter();
             let mut model = expected_rec.iter().map(|v| v.as_slice());
             verdict = drive("recovery_iter", &c.ops, &mut it, &mut model);
+            // every consuming method, each on a new iterator of the same result after a prefix of the operations
+            for t in 0..TERMINALS {
+                if verdict.is_err() {
+                    break;
+                }
+                let cut = ((c.seed >> (t % 16)) as usize ^ t) % (c.ops.len() + 1);
+                verdict = drive_terminal("recovery_iter", &c.ops[..cut], t, res.recovery_iter(), expected_rec.iter().map(|v| v.as_slice()));
+            }
         })
     })
     .map_err(|p| format!("recovery iterator {p}"))?
@@ -182,6 +325,13 @@ fn check_iter(c: &IterCase, st: &mut Stats) -> CheckResult {
             let mut it = res.restored_original_iter();
             let mut model = expected_res.iter().cloned();
             verdict = drive("restored_original_iter", &c.ops, &mut it, &mut model);
+            for t in 0..TERMINALS {
+                if verdict.is_err() {
+                    break;
+                }
+                let cut = ((c.seed >> (t % 16)) as usize ^ t) % (c.ops.len() + 1);
+                verdict = drive_terminal("restored_original_iter", &c.ops[..cut], t, res.restored_original_iter(), expected_res.iter().cloned());
+            }
         })
     })
     .map_err(|p| format!("restored iterator {p}"))?
